@@ -101,8 +101,8 @@ func providerCall(p []byte) (reply []byte) {
 // libValidate re-validates a returned operation with the library's own validators: validated delta, parseable signed data.
 func libValidate(v *hx.Version, o *operation.AnchoredOperation) string {
 	var req struct {
-		Delta      *model.DeltaModel `json:"delta"`
-		SignedData string            `json:"signedData"`
+		Delta      *model.DeltaModel      `json:"delta"`
+		SignedData string                 `json:"signedData"`
 		SuffixData *model.SuffixDataModel `json:"suffixData"`
 	}
 	if err := json.Unmarshal(o.OperationRequest, &req); err != nil {
@@ -579,7 +579,10 @@ func checkC14(c *hx.Ctx) {
 			o["update"] = append(arr(o, "update"), map[string]interface{}{"didSuffix": "EiAextra", "revealValue": "EiAextra"})
 		}},
 		{"chunk-delta-count-skewed-minus", func(fs *fileSet) { ch := obj(fs.Trees["chunk"]); ch["deltas"] = arr(ch, "deltas")[1:] }},
-		{"chunk-delta-count-skewed-plus", func(fs *fileSet) { ch := obj(fs.Trees["chunk"]); ch["deltas"] = append(arr(ch, "deltas"), arr(ch, "deltas")[0]) }},
+		{"chunk-delta-count-skewed-plus", func(fs *fileSet) {
+			ch := obj(fs.Trees["chunk"])
+			ch["deltas"] = append(arr(ch, "deltas"), arr(ch, "deltas")[0])
+		}},
 		{"create-count-skewed", func(fs *fileSet) {
 			o := obj(fs.Trees["core-index"], "operations")
 			o["create"] = arr(o, "create")[1:]
@@ -608,7 +611,9 @@ func checkC14(c *hx.Ctx) {
 		{"anchor-count-plus-one", func(fs *fileSet) { fs.Anchor = fmt.Sprintf("%d.%s", fs.Count+1, fs.URI["core-index"]) }},
 		{"anchor-count-minus-one", func(fs *fileSet) { fs.Anchor = fmt.Sprintf("%d.%s", fs.Count-1, fs.URI["core-index"]) }},
 		{"chunk-delta-null", func(fs *fileSet) { arr(obj(fs.Trees["chunk"]), "deltas")[0] = nil }},
-		{"chunk-delta-without-patches", func(fs *fileSet) { delete(arr(obj(fs.Trees["chunk"]), "deltas")[0].(map[string]interface{}), "patches") }},
+		{"chunk-delta-without-patches", func(fs *fileSet) {
+			delete(arr(obj(fs.Trees["chunk"]), "deltas")[0].(map[string]interface{}), "patches")
+		}},
 		{"chunk-delta-disabled-action", func(fs *fileSet) {
 			d := arr(obj(fs.Trees["chunk"]), "deltas")[0].(map[string]interface{})
 			d["patches"] = []interface{}{map[string]interface{}{"action": "no-such-action", "x": 1.0}}
@@ -622,7 +627,9 @@ func checkC14(c *hx.Ctx) {
 		{"create-suffix-data-null", func(fs *fileSet) {
 			arr(obj(fs.Trees["core-index"], "operations"), "create")[0].(map[string]interface{})["suffixData"] = nil
 		}},
-		{"create-entry-empty-object", func(fs *fileSet) { arr(obj(fs.Trees["core-index"], "operations"), "create")[0] = map[string]interface{}{} }},
+		{"create-entry-empty-object", func(fs *fileSet) {
+			arr(obj(fs.Trees["core-index"], "operations"), "create")[0] = map[string]interface{}{}
+		}},
 		{"operation-reference-without-suffix", func(fs *fileSet) {
 			delete(arr(obj(fs.Trees["core-index"], "operations"), "recover")[0].(map[string]interface{}), "didSuffix")
 		}},
@@ -794,7 +801,9 @@ func mutateTree(r *hx.Rng, t interface{}, fs *fileSet) interface{} {
 	if len(slots) == 0 {
 		return t
 	}
-	sort.Slice(slots, func(i, j int) bool { return fmt.Sprint(slots[i].key, slots[i].idx) < fmt.Sprint(slots[j].key, slots[j].idx) })
+	sort.Slice(slots, func(i, j int) bool {
+		return fmt.Sprint(slots[i].key, slots[i].idx) < fmt.Sprint(slots[j].key, slots[j].idx)
+	})
 	s := hx.Pick(r, slots)
 	junk := func() interface{} {
 		return hx.Pick(r, []interface{}{nil, "", "x", float64(3), true, []interface{}{}, map[string]interface{}{}, []interface{}{nil}, map[string]interface{}{"didSuffix": nil},
